@@ -11,6 +11,7 @@ import (
 	"github.com/cosmos/cosmos-sdk/codec"
 	sdk "github.com/cosmos/cosmos-sdk/types"
 	authtypes "github.com/cosmos/cosmos-sdk/x/auth/types"
+	vestingtypes "github.com/cosmos/cosmos-sdk/x/auth/vesting/types"
 	banktypes "github.com/cosmos/cosmos-sdk/x/bank/types"
 
 	cskeeper "mods.irisnet.org/modules/coinswap/keeper"
@@ -303,6 +304,21 @@ func (d *csDirector) intent(maxBits, blockNo int) (rig.Tx, bool) {
 			d.staged[36] = true
 			tag := &csTag{Kind: "add", Note: "pool-for-a-look-alike-coin"}
 			return r.Mk(a, tag, &cstypes.MsgAddLiquidity{MaxToken: coin("junk-1", big.NewInt(2_000_000)), ExactStandardAmt: toInt(big.NewInt(1_500_000)), MinLiquidity: sdkmath.OneInt(), Deadline: d.next.Add(time.Hour).Unix(), Sender: a.Addr.String()}), true
+		case blockNo == 38 && !d.staged[38]:
+			// ... and somebody opens a vesting account, holding still-locked coins of both of its denominations, at the
+			// address the late pool's reserve account is going to have (the address is a hash of "lpt-<next sequence>",
+			// anybody can compute it): the pool then lives on an account most of whose coins cannot be spent
+			d.staged[38] = true
+			next := uint64(1)
+			for _, p := range s.Pools {
+				if seq, err := cstypes.ParseLptDenom(p.LptDenom); err == nil && seq >= next {
+					next = seq + 1
+				}
+			}
+			squat := cstypes.GetReservePoolAddr(cstypes.GetLptDenom(next))
+			locked := sdk.NewCoins(coin(last, big.NewInt(777_777)), coin(d.std, big.NewInt(1_234_567)))
+			d.run.Count("vesting-account-opened-at-the-next-pool's-reserve-address", 1)
+			return r.Mk(a, &csTag{Kind: "donate", Note: "vesting-account-at-the-next-pool-address"}, vestingtypes.NewMsgCreateVestingAccount(a.Addr, squat, locked, d.next.Add(1000*24*time.Hour).Unix(), true)), true
 		case blockNo < 40 && denom == last:
 			denom = d.denoms[rng.Intn(len(d.denoms)-1)]
 		case blockNo >= 30 && blockNo < 40 && rng.Intn(6) == 0 && len(s.Pools) > 0:
